@@ -365,6 +365,18 @@ def one_relational(rnd, acc, api):
             if not isinstance(r, list):
                 fail('failed', f'dataJoin over {rows!r:.200} / {right!r:.200} = {r!r}')
                 return
+            if not right and rows and jvars is None:
+                # an empty right table: no left row has a partner - the same as a right table whose only key matches nothing (whatever
+                # the flag decides for rows without a partner, it decides it for both)
+                sentinel = [{(rk or k): 'no such key \u2603'}]
+                if via_python:
+                    r_s = bare_script.join_data(copy.deepcopy(rows), sentinel, k, rk, lflag, None, {'globals': {}})
+                else:
+                    r_s, _ = run_script(api, f'll = {T}\nrr = {tbl_lit(sentinel)}\nreturn dataJoin(ll, rr, {lit(k)}, {lit(rk)}, {lit(lflag)})')
+                acc.count('empty_right_table_joins')
+                if isinstance(r_s, list) and len(r_s) != len(r):
+                    fail('pairing', f'empty right table: {len(r)} rows; a right table without any matching key: {len(r_s)} rows (flag {lflag})\nleft={rows!r:.300}')
+                    return
             problem = join_oracle(rows, right, k, rk or k, r)
             if problem:
                 fail('pairing', f'{problem}\nleft={rows!r:.300}\nright={right!r:.300}\nkey={k!r}/{rk!r}\nresult={r!r:.500}')
